@@ -59,7 +59,9 @@ CmapLookup(m, c) ==
   LET S == {i \in 1..Len(m) : m[i][1] = c}
   IN  IF S = {} THEN 0 ELSE m[Min(S)][2]
 
-CmapPriority == << <<3, 10>>, <<0, 4>>, <<3, 1>>, <<0, 3>> >>
+\* ... before the legacy Macintosh subtable (1,0), whose character codes are Mac OS Roman (the mapping m of such
+\* a subtable is written in Unicode: the harness stores it under the Mac codes of its characters)
+CmapPriority == << <<3, 10>>, <<0, 4>>, <<3, 1>>, <<0, 3>>, <<1, 0>> >>
 
 Usable(cm, k) == {i \in 1..Len(cm) : cm[i].p = CmapPriority[k][1] /\ cm[i].e = CmapPriority[k][2] /\ cm[i].ok}
 
